@@ -40,6 +40,7 @@ ASSUMPTIONS = [
 ]
 REQUIRED_CLASSES = ["mutate-original-container", "updated-partial", "cross-class-eq", "deepcopy", "setattr"]
 
+_FRESH = [0]
 CONTAINER_KINDS = {"seq", "tuple_var", "tuple_fixed", "set", "frozenset", "map"}
 
 
@@ -107,6 +108,9 @@ def _hashable(x):
 
 def _mutate(obj, how) -> bool:
     """mutate a mutable container in place; returns whether something was changed"""
+    backing = TT.PROXY_BACKING.get(id(obj))
+    if backing is not None and backing[0] is obj:
+        obj = backing[1]  # the dict behind a caller-supplied read-only view
     try:
         if isinstance(obj, list):
             if how == "clear" and obj:
@@ -141,6 +145,11 @@ def run_case(case) -> Outcome:
     out = Outcome()
     cls = case["cls"]
     src = TT.class_source(cls)
+    if cls.get("fresh"):
+        # a brand-new class per execution: anything the library remembers per class (validators, caches) starts from
+        # scratch, so a history-dependent result is reproducible from the case alone
+        _FRESH[0] += 1
+        src += f"# fresh class {_FRESH[0]}\n"
     try:
         mod = TT.define(src)
         C = mod.C0
@@ -270,6 +279,26 @@ def run_case(case) -> Outcome:
                 if freeze(y) != snap and not _identity_compared(snap):
                     out.violate("copy", f"C04.copy/{o}-different-content", f"{src}{x!r} vs {y!r}")
             unchanged(o)
+        elif o == "inplace":
+            # try to change the value THROUGH the stored attribute containers of the instance or of a (deep) copy
+            classes.add("inplace-attempt")
+            try:
+                target = {"self": lambda: x, "copy": lambda: copy.copy(x), "deepcopy": lambda: copy.deepcopy(x),
+                          "updated": lambda: x.updated()}[op["target"]]()  # fmt: skip
+            except Exception:  # noqa: BLE001 - failures of copy itself are judged by the copy ops
+                continue
+            before = freeze(target)
+            for n in names:
+                if not _convertible(terms[n], env):
+                    continue
+                _poke(getattr(target, n, MISSING))
+                first, _e = _first_element_term(terms[n], env)
+                stored = getattr(target, n, MISSING)
+                if first is not None and _convertible(first, _e) and isinstance(stored, Sequence) and not isinstance(stored, (str, bytes)) and len(stored) > 0:
+                    _poke(stored[0])
+            if freeze(target) != before:
+                out.violate("immutable", f"C04.immutable/stored-container-mutable/{op['target']}", f"{src}args={case['args']}\nbefore={before}\nafter={freeze(target)}")
+            unchanged("inplace")
         elif o == "eq":
             other_kind = op["other"]
             y = None
@@ -353,6 +382,21 @@ def _type_twin(v):
     return None
 
 
+def _poke(v):
+    """attempt an in-place change of a stored container; read-only containers refuse (any exception is fine)"""
+    for attempt in (
+        lambda: v.__setitem__("intruder", "intruder"),
+        lambda: v.append("intruder"),
+        lambda: v.add("intruder"),
+        lambda: v.__setitem__(0, "intruder"),
+        lambda: v.clear(),
+    ):
+        try:
+            attempt()
+        except Exception:  # noqa: BLE001,S110
+            pass
+
+
 def _args_deepcopyable(originals) -> bool:
     for v in originals.values():
         try:
@@ -403,7 +447,7 @@ def strategy(tier):
 
         script = []
         for _ in range(draw(st.integers(3, 8))):
-            kind = draw(st.sampled_from(["setattr", "delattr", "mutate_arg", "mutate_arg", "updated", "updated", "copy", "deepcopy", "eq", "eq"]))
+            kind = draw(st.sampled_from(["setattr", "delattr", "mutate_arg", "mutate_arg", "updated", "updated", "copy", "deepcopy", "eq", "eq", "inplace"]))
             if kind == "setattr":
                 i = draw(idx)
                 script.append({"o": "setattr", "attr": i, "val": good_for(i) or {"v": "int", "x": 1}, "unknown": draw(st.integers(0, 5)) == 0})
@@ -432,6 +476,8 @@ def strategy(tier):
                 script.append({"o": "updated", "repl": repl, "unknown": draw(st.integers(0, 3)) == 0})
             elif kind in ("copy", "deepcopy"):
                 script.append({"o": kind})
+            elif kind == "inplace":
+                script.append({"o": "inplace", "target": draw(st.sampled_from(["self", "copy", "deepcopy", "updated"]))})
             else:
                 other = draw(st.sampled_from(["self", "twin", "diff1", "diff1", "otherclass", "subclass", "otherspec"]))
                 i = draw(idx)
@@ -452,7 +498,31 @@ def strategy(tier):
         (T_("tuple_fixed", items=[T_("seq", of=T_("int")), T_("str")]), lambda outer: V_("tuple", items=[V_("list", items=ints(5)), V_("str", x="s")])),
         (T_("optional", of=T_("seq", of=T_("seq", of=T_("int")))), lambda outer: V_(outer, items=[V_("list", items=ints(7, 8))])),
         (T_("alias_param", body=T_("seq", of=T_("var")), arg=T_("seq", of=T_("int"))), lambda outer: V_(outer, items=[V_("list", items=ints(1))])),
+        (T_("map", k=T_("str"), v=T_("int")), lambda outer: V_("mproxy", items=[[V_("str", x="a"), V_("int", x=1)]])),
+        (T_("map", k=T_("str"), v=T_("seq", of=T_("int"))), lambda outer: V_("mproxy", items=[[V_("str", x="a"), V_("list", items=ints(1))]])),
+        (T_("seq", of=T_("map", k=T_("str"), v=T_("map", k=T_("str"), v=T_("int")))),
+         lambda outer: V_(outer, items=[V_("dict", items=[[V_("str", x="a"), V_("dict", items=[[V_("str", x="b"), V_("int", x=1)]])]])])),
+    ]  # fmt: skip
+    # unions whose LATER alternative would keep a container as it is: the stored form must not depend on what was
+    # constructed before (validators are shared per class)
+    history_templates = [
+        (T_("union", alts=[T_("seq", of=T_("int")), T_("any")]), V_("list", items=ints(7, 8)), V_("str", x="s")),
+        (T_("union", alts=[T_("seq", of=T_("str")), T_("protocol")]), V_("list", items=[V_("str", x="a")]), V_("impl")),
+        (T_("union", alts=[T_("map", k=T_("str"), v=T_("int")), T_("any")]), V_("dict", items=[[V_("str", x="k"), V_("int", x=1)]]), V_("int", x=3)),
     ]
+
+    @st.composite
+    def history_cases(draw):
+        term, value, other = draw(st.sampled_from(history_templates))
+        attrs = [{"name": "a0", "term": term, "default": None}, {"name": "a1", "term": T_("int"), "default": V_("int", x=0)}]
+        script = [
+            {"o": "updated", "repl": {"0": other}, "unknown": False},  # an instance built with the later alternative
+            {"o": "eq", "other": "twin", "attr": 0, "val": None},  # the same arguments again: must give an equal instance
+            {"o": "updated", "repl": {"0": value}, "unknown": False},
+            {"o": "inplace", "target": draw(st.sampled_from(["self", "updated", "deepcopy"]))},
+        ]
+        return {"cls": {"generic": False, "targ": None, "attrs": attrs, "fresh": True}, "args": {"a0": value, "a1": None}, "script": script}
+
 
     @st.composite
     def nested_cases(draw):
@@ -466,7 +536,8 @@ def strategy(tier):
         script.append({"o": "mutate_arg", "attr": 0, "how": draw(st.sampled_from(["append", "clear", "setitem"])), "nested": True})
         script.append({"o": draw(st.sampled_from(["copy", "deepcopy", "eq"])), "other": "twin", "attr": 0, "val": None})
         script.append({"o": "mutate_arg", "attr": 0, "how": "append", "nested": draw(st.booleans())})
-        return {"cls": {"generic": False, "targ": None, "attrs": attrs}, "args": {"a0": value, "a1": None}, "script": script}
+        script.append({"o": "inplace", "target": draw(st.sampled_from(["self", "copy", "deepcopy", "updated"]))})
+        return {"cls": {"generic": False, "targ": None, "attrs": attrs, "fresh": True}, "args": {"a0": value, "a1": None}, "script": script}
 
     scalar_templates = [
         (T_("int"), V_("int", x=1)), (T_("int"), V_("int", x=7)), (T_("float"), V_("float", x=2.0)), (T_("bool"), V_("bool", x=True)),
@@ -491,7 +562,7 @@ def strategy(tier):
             script.append({"o": "eq", "other": draw(st.sampled_from(["twin", "self", "diff1"])), "attr": 0, "val": _type_twin(picks[0][1])})
         return {"cls": {"generic": False, "targ": None, "attrs": attrs}, "args": args, "script": script}
 
-    return st.one_of(cases(), cases(), cases(), nested_cases(), twin_cases())
+    return st.one_of(cases(), cases(), cases(), nested_cases(), twin_cases(), history_cases())
 
 
 def budget(tier):
